@@ -58,7 +58,7 @@ def build(case, tmp):
         tr.keepdims = case['keepdims']
     elif fmt == 'v2':
         syn = h5synth.make_v2(path, rng, T=case['T'], F=case['F'], n_ants=case['n_ants'], shuffle_bls=True,
-                              dup_final_dump=False, open_kwargs={'keepdims': case['keepdims']})
+                              dup_final_dump=case['dup'], open_kwargs={'keepdims': case['keepdims']})
         tr.keepdims = case['keepdims']
     else:
         n = max(1, case['T'] // 3)
@@ -230,7 +230,10 @@ def drive(ctx, case, d, tr):
         # --- shape and labels
         if tuple(int(x) for x in d.shape) != shape:
             return f'shape {tuple(d.shape)} != (len(dumps), len(channels), len(corr_products)) = {shape}', nontrivial
-        ts = np.asarray(d.timestamps[:])
+        try:
+            ts = np.asarray(d.timestamps[:])
+        except Exception as e:   # noqa: BLE001
+            return f'reading timestamps raised {type(e).__name__}: {str(e)[:100]}', nontrivial
         if ts.shape != (shape[0],) or not np.array_equal(ts, tr.timestamps[dumps]):
             return f'timestamps {ts.tolist()[:4]} are not those of dumps {dumps[:4]}: {tr.timestamps[dumps].tolist()[:4]}', nontrivial
         if not np.array_equal(np.asarray(d.freqs), tr.freqs[chans]):
@@ -303,8 +306,10 @@ def evaluate(ctx, cases):
             ctx.tag('v4-via-katdal.open(rdb)' if c.get('via_rdb') else 'v4-direct-source')
         if c['fmt'] in ('v2', 'v3'):
             ctx.tag('keepdims' if c['keepdims'] else 'dropdims')
+        if c['fmt'] in ('v2', 'v3'):
+            ctx.tag(c['fmt'] + ('-dup-final-dump' if c['dup'] else '-no-dup'))
         if c['fmt'] == 'v3':
-            ctx.tag('dup-final-dump' if c['dup'] else 'no-dup', f"sideband{c['sideband']}")
+            ctx.tag(f"sideband{c['sideband']}")
         ctx.count(json.dumps(c, sort_keys=True), bool(nontriv),
                   sample={'fmt': c['fmt'], 'T': c['T'], 'F': c['F'], 'ops': [o['select'] for o in c['ops']][:2]})
         if v:
